@@ -54,10 +54,10 @@ func (c CutCase) Coq() string {
 		minor = 0
 	}
 	closed := c.ClientEnd == "eof" || c.ClientEnd == "reset"
-	return fmt.Sprintf("(mkfcase %d %s %s %d %d %s %s %s %d %d %d %d %s %s %d %d %d %d %s %s %s)",
+	return fmt.Sprintf("(mkfcase %d %s %s %d %d %s %s %s %d %d %d %d %s %s %d %d %d %d %s %s %s %s)",
 		fr, coqfmt.Bool(c.End == "rst" || c.End == "tlscut" || c.End == "corrupt"), coqfmt.Bool(c.Full), c.UpStatus, c.BodySent, bodyRef,
 		coqfmt.Bytes(c.Raw), coqfmt.Bool(c.ClientEnd == "eof"), verdictN(c.Go.Verdict), c.Go.Status, c.Go.BodyLen, c.Go.RestLen,
-		coqfmt.Bool(hasErrHdr), coqfmt.Bool(c.HarnessErr == ""), c.K, c.HeadLen, c.ReplyLen, minor, coqfmt.Bool(closed), coqfmt.Bool(c.Route == "connect-reject"), coqfmt.Bool(c.Route == "handler"))
+		coqfmt.Bool(hasErrHdr), coqfmt.Bool(c.HarnessErr == ""), c.K, c.HeadLen, c.ReplyLen, minor, coqfmt.Bool(closed), coqfmt.Bool(c.Route == "connect-reject"), coqfmt.Bool(c.Route == "handler"), coqfmt.Bool(c.End == "tlscut"))
 }
 
 // CutBodyCoq is the Gallina definition of the shared body constant.
@@ -500,7 +500,7 @@ func (cr *CutRig) Run(c *CutCase) {
 		return
 	}
 	co := ReadResponse(conn, false, c.timeout())
-	if c.Pipelined && co.End == "open" && co.P.Verdict == VComplete {
+	if cv, _ := co.P.Get("Connection"); c.Pipelined && co.End == "open" && co.P.Verdict == VComplete && !strings.EqualFold(cv, "close") {
 		// the first reply is complete and the connection is still open: what follows belongs to the second exchange.
 		// Keep only the first message for the checker; the second must be the second origin reply, whole.
 		first := co.Raw[:len(co.Raw)-co.P.RestLen]
